@@ -60,6 +60,9 @@ def val_str(v):
         return "t:" + v
     if isinstance(v, Obj):
         return "o{" + ",".join("%s=%s" % (k, val_str(x)) for k, x in sorted(vars(v).items())) + "}"
+    if isinstance(v, tuple):
+        # tuples exist on the implementation side only (the model's value universe has none): impl-only scenarios
+        return "u[" + ",".join(val_str(x) for x in v) + "]"
     return "?" + type(v).__name__
 
 
@@ -86,6 +89,16 @@ def _val_parse(s):
         while j < len(s) and (s[j].isalnum() or s[j] in "_/."):
             j += 1
         return s[2:j], s[j:]
+    if s.startswith("u["):
+        items = []
+        rest = s[2:]
+        while not rest.startswith("]"):
+            if rest.startswith(","):
+                rest = rest[1:]
+                continue
+            v, rest = _val_parse(rest)
+            items.append(v)
+        return tuple(items), rest[1:]
     if s.startswith("o{"):
         o = Obj()
         rest = s[2:]
